@@ -76,10 +76,65 @@ func AddFamilies(t *rapid.T, w *World, pf Profile) {
 			}
 			w.Groups = append(w.Groups, g)
 		}
+		// near-twins that are NOT members: same queue, template and gang shape, the other preemptibility (they meet
+		// other quota rules and may fail where a member would not); whatever the scheduler concludes from their fate
+		// must not change the order among the members. They are never compared.
+		if chance(t, 2, "famDecoys") {
+			other := "non-preemptible"
+			if preempt == "non-preemptible" {
+				other = "preemptible"
+			}
+			for d, nd := 0, between(t, 1, 2, "famDecoyN"); d < nd; d++ {
+				src := w.Groups[len(w.Groups)-1-uniform(t, k, "famDecoyLike")]
+				g := Group{Name: fmt.Sprintf("f%dd%d", f, d), Queue: queue, MinMember: min, Preemptibility: other, PriorityClass: src.PriorityClass}
+				c := between(t, 1, 40, "famDecoyCreated")*3 + 1
+				g.CreatedMin = c
+				for pi := 0; pi < replicas; pi++ {
+					p := tmpl
+					p.Name = fmt.Sprintf("%s-p%d", g.Name, pi)
+					p.CreatedMin = c
+					p.State = Pending
+					g.Pods = append(g.Pods, p)
+				}
+				w.Groups = append(w.Groups, g)
+			}
+		}
 	}
 }
 
 type OrderFacts struct{ Pairs, SplitPairs int }
+
+// nodeDependentGPUShare: the workload asks for GPU memory (MiB), the cluster has GPU nodes with devices of different
+// memory - so the GPU share the queue is charged depends on the node each pod lands on - and a queue above the
+// workload has a GPU limit. Whether the gang fits under the limit then depends on the per-pod node choice, which the
+// allocate action makes greedily by node score and never revisits.
+func nodeDependentGPUShare(w *World, g *Group) bool {
+	if len(g.Pods) == 0 || g.Pods[0].GPUMemory <= 0 {
+		return false
+	}
+	mems := map[int]bool{}
+	for _, n := range w.Nodes {
+		if n.GPUs > 0 && n.GPUMem > 0 {
+			mems[n.GPUMem-n.GPUMem%100] = true
+		}
+	}
+	if len(mems) < 2 {
+		return false
+	}
+	byName := map[string]*Queue{}
+	for i := range w.Queues {
+		byName[w.Queues[i].Name] = &w.Queues[i]
+	}
+	for q, hops := byName[g.Queue], 0; q != nil && hops < 16; q, hops = byName[q.Parent], hops+1 {
+		if q.GPU.Limit >= 0 {
+			return true
+		}
+		if q.Parent == "" {
+			break
+		}
+	}
+	return false
+}
 
 // CheckOrder is the C16 oracle on one cycle.
 func CheckOrder(w *World, rec *CycleRecord) ([]Finding, OrderFacts) {
@@ -134,7 +189,12 @@ func CheckOrder(w *World, rec *CycleRecord) ([]Finding, OrderFacts) {
 				facts.SplitPairs++
 			}
 			if placed[b.Name] && !placed[a.Name] {
-				out = append(out, Finding{"c16-order-inverted", fmt.Sprintf(
+				sig := "c16-order-inverted"
+				if nodeDependentGPUShare(w, a) {
+					// listed known finding: see known_findings.json
+					sig = "c16-order-inverted-gpu-memory-share-depends-on-node-under-queue-limit"
+				}
+				out = append(out, Finding{sig, fmt.Sprintf(
 					"workload %s (priority %d, created %d min ago) was placed while the identical workload %s of the same queue %s (priority %d, created %d min ago) was left unplaced",
 					b.Name, pb, b.CreatedMin, a.Name, a.Queue, pa, a.CreatedMin), rec.Index})
 			}
